@@ -98,10 +98,13 @@ def block(draw, name, nrexcl, syntax, names=None, max_atoms=5, resname=None, non
     else:
         natoms = len(names)
     atoms = []
+    # the residue number written in the block's own [ atoms ] lines (a monomer cut out of a longer molecule keeps
+    # its old number); the generated molecule is numbered by the residue graph whatever it says
+    own_resid = draw(st.sampled_from([1, 1, 1, 1, 2, 3, 7]))
     for idx in range(natoms):
         atoms.append({"name": names[idx], "type": draw(st.sampled_from(TYPES)),
                       "charge": draw(st.sampled_from(CHARGES)), "mass": draw(st.sampled_from(MASSES)),
-                      "cgrp": draw(st.integers(1, natoms)), "resid": 1, "resname": resname or name})
+                      "cgrp": draw(st.integers(1, natoms)), "resid": own_resid, "resname": resname or name})
     inter = []
     adj = {i: [] for i in range(natoms)}
     # spanning tree of bonds / constraints so that the residue is connected
